@@ -499,6 +499,12 @@ class PVLEncoder(object):
         if len(s) == 0 or not tok.is_unquoted_string():
             return True
 
+        if s.endswith("-"):
+            # Bare text that ends in a dash would end its line with that
+            # dash when no statement delimiter is written, which the
+            # permissive OmniParser takes for a line continuation.
+            return True
+
         return not self._decodes_to_itself(s)
 
     def _decodes_to_itself(self, s: str) -> bool:
